@@ -7,6 +7,7 @@ package aa
 import (
 	"embed"
 	"fmt"
+	"slices"
 	"strings"
 	"text/template"
 )
@@ -201,6 +202,7 @@ func join(i any) string {
 		for k, v := range i {
 			res = append(res, k+"="+v)
 		}
+		slices.Sort(res) // Not in map order: the same file renders the same text every time
 		return strings.Join(res, " ")
 	default:
 		return i.(string)
@@ -219,6 +221,7 @@ func cjoin(i any) string {
 		for k, v := range i {
 			res = append(res, k+"="+v)
 		}
+		slices.Sort(res)
 		return "(" + strings.Join(res, " ") + ")"
 	default:
 		return i.(string)
